@@ -91,6 +91,9 @@ class _Compiler:
                         self.emitter.append(f"case {' | '.join(f'0b0{pattern}' for pattern in patterns)}:")
                     with self.emitter.indent():
                         case_handler(*case)
+                    if patterns is None:
+                        # Python rejects any `case` after a wildcard; the remaining cases can never match anyway.
+                        break
         else:
             for index, case in enumerate(cases):
                 patterns = case[0]
